@@ -470,6 +470,14 @@ def c_pow_int(z, n):
         if n == 0:
             return CB(RB.point(1, 0), RB.point(0, 0))
         raise Indeterminate('0 ** negative')
+    if b[0] == 0:
+        return CB(o_pow_int(a, n), RB.point(0, 0))
+    if a[0] == 0 and abs(n) < (1 << 40):
+        # (i b)^n = i^n b^n
+        v = o_pow_int(b, n)
+        k = n % 4
+        zero = RB.point(0, 0)
+        return [CB(v, zero), CB(zero, v), CB(-v, zero), CB(zero, -v)][k]
     bl = max(abs(a[0]).bit_length(), abs(b[0]).bit_length()) + 2
     if 0 <= n and bl * n <= 40000:
         # exact Gaussian-dyadic power by repeated squaring on integers
@@ -983,6 +991,9 @@ def regime(name, a):
             if n < 0:
                 return 'negative-exponent'
             return 'exact-power' if (bc * n < 1000 or m == 1 or n <= 2) else 'binary-exponentiation'
+        if name == 'mpc_gamma':
+            (rs, rm, re_, rbc), (is_, im, ie, ibc) = a['z']
+            return ('reflection' if rs else 'right-half-plane') + (':next-to-real-axis' if (im and ie + ibc < -10) else '')
         if name == 'mpf_gamma':
             s, m, e, bc = a['x']
             if e + bc < -(prec + 20):
